@@ -41,6 +41,9 @@ LEN_MENUS = [
     ("exact2", [("len(X) == 2", ("exact", 2))]),
     ("gt0-lt3", [("len(X) > 0", ("min", 1)), ("len(X) < 3", ("max", 2))]),
     ("reversed-operands", [("1 <= len(X)", ("min", 1)), ("4 > len(X)", ("max", 3))]),
+    # the same side of the bound stated twice (the tighter one by the descendant)
+    ("max3-max2", [("len(X) <= 3", ("max", 3)), ("len(X) <= 2", ("max", 2))]),
+    ("min1-min2", [("len(X) >= 1", ("min", 1)), ("len(X) >= 2", ("min", 2))]),
 ]
 PATTERN_MENUS = [
     (f"pattern-{name}", [(f"matches_{name.replace('-', '_')}(X)", ("pattern", name))])
@@ -101,8 +104,8 @@ def models(tier: str) -> Iterator[Tuple[Dict[str, Any], sdk.Spec]]:
     # constrained primitives
     for annotation in ["Tag", "Optional[Tag]", "List[Tag]"]:
         for family, menu in LEN_MENUS + PATTERN_MENUS:
-            for placement in ("cprim", "cprim-chain"):
-                if placement == "cprim-chain" and len(menu) < 2:
+            for placement in ("cprim", "cprim-chain", "cprim-chain3-reversed"):
+                if placement != "cprim" and len(menu) < 2:
                     continue
                 invariants = [
                     (template.replace("X", "self"), f"Constraint {index} on the text.")
@@ -110,6 +113,14 @@ def models(tier: str) -> Iterator[Tuple[Dict[str, Any], sdk.Spec]]:
                 ]
                 if placement == "cprim":
                     cprims = [sdk.CPrim("Tag", "str", invariants)]
+                    used = annotation
+                elif placement == "cprim-chain3-reversed":
+                    # three levels, the descendants declared first in the source
+                    cprims = [
+                        sdk.CPrim("Tag", "str", invariants[2:], parent="Middle_tag"),
+                        sdk.CPrim("Middle_tag", "str", invariants[1:2], parent="Basic_tag"),
+                        sdk.CPrim("Basic_tag", "str", invariants[:1]),
+                    ]
                     used = annotation
                 else:
                     cprims = [
